@@ -91,7 +91,7 @@ func (fr *Frame) evalArgs(args []ssa.Value) []Val {
 }
 
 // runAsserts checks and then assumes the "assert <where>" clauses of the function under proof.
-func (fr *Frame) runAsserts(where string, pos token.Pos) {
+func (fr *Frame) runAsserts(where string, pos token.Pos, callArgs ...Val) {
 	vc := fr.vc
 	if fr.spec == nil || vc.spec != 0 {
 		return
@@ -117,6 +117,14 @@ func (fr *Frame) runAsserts(where string, pos token.Pos) {
 			}
 			aargs = append(aargs, x)
 		}
+		if cl.NArgs > 0 {
+			// positional arguments of the call (a method call's receiver comes first in SSA: skip it)
+			off := len(callArgs) - cl.NArgs
+			if off < 0 {
+				continue
+			}
+			aargs = append(aargs, callArgs[off:]...)
+		}
 		r := vc.evalSpec(cf, aargs, fr.st, fr.old)
 		vc.obligeAssumed("assert", fmt.Sprintf("%s#assert[%s]@%s", fr.fname(), clauseLabel(cl, k), vc.srcLine(pos)), fr.live, r.T, cl)
 		vc.assume(implies(fr.live, r.T))
@@ -126,13 +134,13 @@ func (fr *Frame) runAsserts(where string, pos token.Pos) {
 func (fr *Frame) staticCall(t *ssa.Call, callee *ssa.Function, bindings []Val) {
 	vc := fr.vc
 	name := callee.Name()
+	args := fr.evalArgs(t.Common().Args)
 	if fr.isTop {
-		fr.runAsserts(name, t.Pos())
+		fr.runAsserts(name, t.Pos(), args...)
 	}
 	if callee.Origin() != nil {
 		name = callee.Origin().Name()
 	}
-	args := fr.evalArgs(t.Common().Args)
 	if vc.inPkg(callee) {
 		switch {
 		case name == "__old":
@@ -1343,10 +1351,17 @@ func (fr *Frame) dynamicCall(t *ssa.Call, fv Val) {
 			}
 		}
 	}
+	if fr.isTop {
+		fr.runAsserts(t.Common().Value.Name(), t.Pos(), fr.evalArgs(t.Common().Args)...)
+	}
 	// a callback: may do anything the API allows; havoc every heap
 	fr.check("nilfunc", t.Common().Value.Name(), not(eq(fv.T, Term{"nilfunc", SFunc})), t.Pos())
-	vc.havocAll(fr.st)
-	vc.assumed["callback: a call through a function value havocs all heaps and is assumed not to panic"] = true
+	if fr.isTop && fr.spec != nil && fr.spec.Flags["lockedcallbacks"] {
+		vc.assumed["callbacks of "+fr.fname()+" run under the world lock (C07): they are assumed not to change the state these contracts describe (entity index, tables, pool, locks); observer and filter registrations changed by a callback are not modelled"] = true
+	} else {
+		vc.havocAll(fr.st)
+		vc.assumed["callback: a call through a function value havocs all heaps and is assumed not to panic"] = true
+	}
 	if t.Type() != nil {
 		if tup, ok := t.Type().(*types.Tuple); ok && tup.Len() == 0 {
 			fr.vals[t] = Val{}
